@@ -83,6 +83,8 @@ func pick[T any](r *rand.Rand, l []T) T { return l[r.Intn(len(l))] }
 func (g *ysonGen) safeString() string {
 	r := g.r
 	switch x := r.Intn(10); {
+	case x < 1:
+		return pick(r, prepassStrings) // repaired by 0cf3884e: must survive
 	case x < 6:
 		return pick(r, safeStrings)
 	case x < 8:
@@ -104,9 +106,6 @@ func (g *ysonGen) safeString() string {
 				c = rune([]int{8, 9, 10, 12, 13}[r.Intn(5)])
 			default:
 				c = rune(0x1f300 + r.Intn(0x300))
-			}
-			if c == ')' {
-				c = '('
 			}
 			rs = append(rs, c)
 		}
@@ -136,6 +135,9 @@ func (g *ysonGen) safeKey() string {
 			return "kx"
 		}
 		return k
+	}
+	if r.Intn(10) == 0 {
+		return pick(r, prepassStrings)
 	}
 	return pick(r, safeKeys)
 }
